@@ -3,7 +3,8 @@ Decided statically (level: proof of the lane maps): for every capacity (1–3 wo
 length 0..=max_len: new/len/max_len, get, set_mut (never touches the length byte or another base), set_slice_mut for
 every (position, run length) including runs crossing a word boundary and runs in the word that carries the length byte,
 rc for every length, get_kmer for every k-mer type and position; equality/order/hash are derived over the storage array
-and every writer preserves "unused lanes are zero"."""
+and every writer preserves "unused lanes are zero".
+Added later: immutable writes (set / set_slice incl. 32-base runs) for every capacity."""
 from .. import lemmas, structural
 
 THOROUGH_FACTS = True
